@@ -6,6 +6,7 @@ import (
 	"flag"
 	"fmt"
 	"os"
+	"os/exec"
 	"path/filepath"
 	"runtime"
 	"sort"
@@ -172,6 +173,14 @@ func checkCmd(args []string) int {
 		if r.unknown > 0 {
 			inconclusive = append(inconclusive, fmt.Sprintf("%s: %d solver unknowns", r.job.String(), r.unknown))
 		}
+	}
+	// cross-solver diff on a sample of the decided queries
+	cc := spec.CrossCheck
+	if cc == 0 {
+		cc = 24
+	}
+	for _, d := range crossCheck(all, cc) {
+		inconclusive = append(inconclusive, d)
 	}
 	validated := 0
 	validationMismatch := []string{}
@@ -419,9 +428,8 @@ func runJob(prog *sym.Program, job Job, spec *Spec, solver string, timeoutMs int
 	for _, ns := range job.H.NoStubs {
 		e.Unregister(ns)
 	}
-	if spec.CrossCheck > 0 {
-		e.Solver().Record = true
-	}
+	e.Solver().Record = true
+	e.Solver().RecordMax = 2
 	pkg := findPkg(prog, job.H.Pkg)
 	if pkg == nil {
 		r.unsupp = append(r.unsupp, "package not loaded: "+job.H.Pkg)
@@ -715,7 +723,63 @@ func writeEvidence(root string, spec *Spec, tier string, seed int64, all []*jobR
 			"stubs_used":                    spec.StubsUsed,
 		},
 	}
+	if crossStats != nil {
+		ev["coverage"].(map[string]interface{})["cross_solver"] = crossStats
+	}
 	b, _ := json.MarshalIndent(ev, "", " ")
 	os.MkdirAll(filepath.Join(root, "evidence"), 0755)
 	os.WriteFile(filepath.Join(root, "evidence", spec.Property+".json"), b, 0644)
+}
+
+// crossStats is filled by crossCheck and written into the evidence.
+var crossStats map[string]interface{}
+
+// crossCheck re-decides a sample of the recorded queries with the other installed solvers
+// (z3 4.8.12 and cvc5) and returns a description of every disagreement.
+func crossCheck(all []*jobResult, limit int) []string {
+	var qs []sym.RecordedQuery
+	for _, r := range all {
+		qs = append(qs, r.recorded...)
+	}
+	if len(qs) == 0 || limit <= 0 {
+		return nil
+	}
+	step := 1
+	if len(qs) > limit {
+		step = len(qs) / limit
+	}
+	var sample []sym.RecordedQuery
+	for i := 0; i < len(qs) && len(sample) < limit; i += step {
+		sample = append(sample, qs[i])
+	}
+	solvers := [][]string{{"z3", "-in", "-T:20"}, {"cvc5", "--lang=smt2", "--tlimit=20000"}}
+	var bad []string
+	agree := map[string]int{}
+	unknown := map[string]int{}
+	for _, q := range sample {
+		want := "unsat"
+		if q.Res == sym.Sat {
+			want = "sat"
+		}
+		for _, sv := range solvers {
+			cmd := exec.Command(sv[0], sv[1:]...)
+			cmd.Stdin = strings.NewReader("(set-logic ALL)\n" + q.Script)
+			out, _ := cmd.CombinedOutput()
+			txt := strings.TrimSpace(string(out))
+			first := txt
+			if i := strings.IndexByte(txt, '\n'); i >= 0 {
+				first = txt[:i]
+			}
+			switch {
+			case first == want:
+				agree[sv[0]]++
+			case first == "sat" || first == "unsat":
+				bad = append(bad, fmt.Sprintf("cross-solver disagreement: z3-new says %s, %s says %s", want, sv[0], first))
+			default:
+				unknown[sv[0]]++ // unknown / timeout / unsupported construct: no verdict
+			}
+		}
+	}
+	crossStats = map[string]interface{}{"queries_sampled": len(sample), "agree": agree, "no_verdict": unknown, "disagreements": len(bad)}
+	return bad
 }
